@@ -13,7 +13,7 @@ META = dict(
                        'control.FileHashFromHasher', '(*FileHash).Verifier', '(*verifier).Write/Close', '(*BestChecksums).Checksums', 'SHA256/SHA512FileHash.UnmarshalControl through control.Unmarshal'],
     stubs=['md5/sha1/sha256/sha512.New: abstract hashers that record every byte written in order; Sum = H_alg(bytes), one uninterpreted function per algorithm',
            'encoding/hex Encode/Decode (arithmetic model)', 'log.Fatalf (process-exit outcome, counted as a violation)', 'reflect model'],
-    bounds={'quick': 'content of 0-3 symbolic bytes, every split into three writes/reads; every ordered selection of 1-3 of the four algorithms (and the single-algorithm constructors) for the unsplit stream and six selections per other split; verifiers: entries from Checksums-Sha256, Checksums-Sha512, the best-checksum selector (each alone) and FileHashFromHasher for all four algorithms, content and recorded-digest preimage of 0-2 symbolic bytes; malformed recorded hashes of 1-4 symbolic characters',
+    bounds={'quick': 'content of 0-3 symbolic bytes, every split into three writes/reads; every ordered selection of 1-3 of the four algorithms (and the single-algorithm constructors) for the unsplit stream and six selections per other split; verifiers: entries from Checksums-Sha256, Checksums-Sha512, the best-checksum selector (each alone) and FileHashFromHasher for all four algorithms, content and recorded-digest preimage of 0-2 symbolic bytes (four length pairs in quick, all nine in thorough); malformed recorded hashes of 1-4 symbolic characters',
             'thorough': 'content up to 5 bytes'},
     outside_claim=['the digest functions themselves (stdlib, uninterpreted here): the claim is which bytes reach which algorithm, in which order, and how the result is compared'],
     assumptions=[])
@@ -37,7 +37,7 @@ def jobs(tier):
                 js.append(dict(name='io_%d_%d_%d' % (n, c1, c2), kind='io', n=n, c1=c1, c2=c2, sels=use))
     js.append(dict(name='unknown', kind='unknown'))
     for kind in range(8):
-        for n, m in itertools.product(range(3), range(3)):
+        for n, m in (itertools.product(range(3), range(3)) if tier == 'thorough' else ((0, 0), (1, 1), (2, 1), (1, 0))):
             js.append(dict(name='verify_%d_%d_%d' % (kind, n, m), kind='verify', k=kind, n=n, m=m))
     for kind in range(4):
         js.append(dict(name='badhash_%d' % kind, kind='badhash', k=kind))
